@@ -29,6 +29,18 @@ OPS = {
     10: ("var v = [1]; v[0.5];", "ValueError"),
     11: ("nil();", "TypeError"),
     12: ("Object.nothing();", "AttributeError"),
+    13: ("5[0];", "TypeError"),
+    14: ('[1]["a"];', "TypeError"),
+    15: ('"abc"[7];', "IndexError"),
+    16: ("var m = {[1]: 2};", "ValueError"),
+    17: ("for x in 5 { }", "AttributeError"),
+    18: ("[1].push();", "TypeError"),
+    # raised in a closure that the core library's iterator classes call from inside a native `collect`
+    19: ("[1, 2].iter().map(|x| { return nil.foo; }).collect();", "AttributeError"),
+    20: ('[1, 2].iter().filter(|x| { return 1 + "a"; }).collect();', "TypeError"),
+    21: ("(1, 2)[2];", "IndexError"),
+    22: ('-"a";', "TypeError"),
+    23: ('"${nil.foo}";', "AttributeError"),
 }
 ALL_KINDS = HOST_KINDS + ["op:%d" % k for k in sorted(OPS)]
 
